@@ -1,7 +1,9 @@
 /- C43 — property theorems (see docs/C43.md for the reading of each clause). -/
 import TornadoModel.C43.Lemmas
+import TornadoModel.Base.Wire
 namespace TornadoModel.C43
 open TornadoModel.C06 (Str isToken)
+open TornadoModel
 
 /-! ### start lines -/
 
@@ -120,6 +122,7 @@ theorem parseHeader_total_partial (line : Str)
     simp only [hg]
     have : g'.ext = [] := he
     rw [this]
+    simp only [List.any_nil, Bool.false_eq_true, if_false]
     exact ⟨_, rfl⟩
 
 example : ∀ p ∈ rawParams (parseparam [102, 59, 32, 110, 61, 34, 120, 34]).tail, continuation p.1 = none := by decide
@@ -223,6 +226,59 @@ theorem splitHostPort_total (s : Str) :
   | some p =>
     obtain ⟨h, ds⟩ := p
     by_cases hl : ds.length > intMaxDigits <;> simp [hl]
+
+/-! ### `url_concat` -/
+
+/-- `url_concat(url, None)` is the url -/
+theorem url_concat_none (url : Str) : urlConcat url none = url := rfl
+
+/-- empty argument list and no query: nothing is appended (no stray `?`) -/
+theorem url_concat_nil_noquery (url : Str) (h1 : 35 ∉ url) (h2 : 63 ∉ url) : urlConcat url (some []) = url := by
+  have e1 : splitFirst 35 url = none := by
+    cases h : splitFirst 35 url with
+    | none => rfl
+    | some p =>
+      obtain ⟨a, b⟩ := p
+      have := (splitFirst_some 35 url a b h).1
+      exact absurd (by rw [this]; simp) h1
+  have e2 : splitFirst 63 url = none := by
+    cases h : splitFirst 63 url with
+    | none => rfl
+    | some p =>
+      obtain ⟨a, b⟩ := p
+      have := (splitFirst_some 63 url a b h).1
+      exact absurd (by rw [this]; simp) h2
+  simp [urlConcat, urlSplit, e1, e2, parseQsl, splitAll, urlencode, C06.joinWith]
+
+/-! ### stated, not proved: exercised by the tie only (see docs/C43.md) -/
+
+/-- `_parse_header(_encode_header(k, d)) = (k, d)` for a token key, lower-case token names without the RFC 2231 shape
+    (listed in sorted order, as `_encode_header` emits them) and token values -/
+def param_roundtrip_goal : Prop :=
+  ∀ (k : Str) (d : List (Str × Str)), isToken k = true →
+    (∀ p ∈ d, isToken p.1 = true ∧ lowerAscii p.1 = p.1 ∧ continuation p.1 = none ∧ isToken p.2 = true) →
+    d.Pairwise (fun a b => strLt a.1 b.1 = true) →
+    parseHeader (encodeHeader k (d.map (fun p => (p.1, some p.2)))) = .ok (k, d)
+
+/-- days ↔ civil date, years 1970–9999 -/
+def civil_roundtrip_goal : Prop :=
+  ∀ d, d < 2932897 → daysFromCivil (civilFromDays d).1 (civilFromDays d).2.1 (civilFromDays d).2.2 = d
+
+/-- HTTP timestamps (whole seconds, years 1970–9999) round-trip through formatting and parsing -/
+def timestamp_roundtrip_goal : Prop :=
+  ∀ ts, ts < 253402300800 → parseHttpDate (formatTimestamp ts) = some ts
+
+/-- `url_concat` keeps the part before the query and the fragment, keeps the existing pairs and appends the arguments
+    in order (text without lone surrogates) -/
+def url_concat_preserves_goal : Prop :=
+  ∀ (url : Str) (args : List (Str × Str)), url.all Wire.isScalar = true →
+    (∀ p ∈ args, p.1.all Wire.isScalar = true ∧ p.2.all Wire.isScalar = true) →
+    (urlSplit (urlConcat url (some args))).1 = (urlSplit url).1 ∧
+    (urlSplit (urlConcat url (some args))).2.2 = (urlSplit url).2.2 ∧
+    parseQsl (urlSplit (urlConcat url (some args))).2.1 = parseQsl (urlSplit url).2.1 ++ args
+
+example : parseHttpDate (formatTimestamp 1359312200) = some 1359312200 := by decide
+example : formatTimestamp 1359312200 = ofAscii "Sun, 27 Jan 2013 18:43:20 GMT" := by decide
 
 /-! ### `re_unescape` -/
 
